@@ -161,7 +161,7 @@ def one_history(ctx, i, tmproot):
             check_run(ctx, p, res, dict(base, truth=t, line_endings_converted_before_run=converted), replay, run_no,
                       truth_changed_before=(prev_truth is not None and prev_truth != t) or converted, via=via, streak=streak)
             # (4) growth
-            counts = {k: count_definitions(p.files[k], DEF_NAME[k]) for k in p.files}
+            counts = {k: count_definitions(p.files[k], p.def_name[k]) for k in p.files}
             if counts_prev is not None and prev_truth == t:
                 for k in counts:
                     if counts[k] > counts_prev[k] >= 0:
